@@ -216,3 +216,121 @@ theorem bool_refines (s : St) (hr : Ready s) (hk : s.kind = none) (ha : 1 ≤ av
     | n + 2, hm =>
       refine ⟨by intro b rest' h; simp at h, fun _ _ => ⟨.badBool, s', ?_, hal⟩⟩
       simp only [bool, hm]
+
+/-! ### Bytes() -/
+
+theorem bytes_of_kind (s s1 : St) (k : K) (n : Nat) (hko : kindOf s = (.ok (k, n), s1))
+    (hk : s1.kind = some k) (hs : s1.size = n) (he : s1.kinderr = none) : bytes s = bytes s1 := by
+  have h1 := kindOf_cached s1 k hk he
+  rw [hs] at h1
+  unfold bytes
+  rw [hko, h1]
+
+/-- the Stream machine's `Bytes()` against the typed-layer primitive `Rlp.readBytes` (also the reader under
+    `decodeBigInt`, `decodeString`, `decodeByteSlice`), with the ghost allocation bounded by the bytes consumed. -/
+theorem bytes_refines (s : St) (hr : Ready s) (hk : s.kind = none) (ha : 1 ≤ avail s) :
+    (∀ b rest, Rlp.readBytes (win s) = .ok (b, rest) →
+      ∃ s', bytes s = (.ok b, s') ∧ Step s ((win s).length - rest.length) s' ∧ s'.kind = none ∧ rest = win s' ∧
+        s'.alloc ≤ s.alloc + ((win s).length - rest.length)) ∧
+    (∀ e, Rlp.readBytes (win s) = .error e → ∃ e' s', bytes s = (.error e', s') ∧ s'.alloc ≤ s.alloc + avail s) := by
+  have hwl := win_length s hr
+  have hks := kind_spec s hr hk ha
+  have hkerr : HardErr s (kindOf s) → ∃ e' s', bytes s = (.error e', s') ∧ s'.alloc ≤ s.alloc + avail s := by
+    intro hhe
+    obtain ⟨e', s', hko, _, hal⟩ := hard_of_hardErr hhe
+    exact ⟨e', s', by simp only [bytes, hko], by omega⟩
+  unfold Rlp.readBytes
+  cases hh : readHead (win s) with
+  | error e0 =>
+    rw [hh] at hks
+    exact ⟨by intro b rest h; simp at h, fun e _ => hkerr hks⟩
+  | ok hd =>
+    rw [hh] at hks
+    cases hd with
+    | byte x r =>
+      obtain ⟨s1, hko, hc, hbv, hr1w⟩ := hks
+      have hr1 : Ready s1 := step_ready hr ha hc.step
+      have hlen : (win s).length - r.length = 1 := by
+        rw [hr1w, win_length s1 hr1, step_avail hc.step, hwl]; omega
+      simp only
+      refine ⟨?_, by intro e h; simp at h⟩
+      intro b rest h
+      simp only [Except.ok.injEq, Prod.mk.injEq] at h
+      obtain ⟨hb, hrest⟩ := h
+      subst hb; subst hrest
+      rw [hlen]
+      refine ⟨{ s1 with kind := none, alloc := s1.alloc + 1 }, ?_,
+        ⟨hc.step.inp, hc.step.rem, hc.step.lim, hc.step.stack⟩, rfl, ?_, ?_⟩
+      · rw [bytes_of_kind s s1 .byte 0 hko hc.kind hc.size hc.err, bytes_byte s1 hc.kind hc.err, hbv]
+      · rw [hr1w]; rfl
+      · simp only [hc.alloc]; omega
+    | list m r =>
+      simp only at hks ⊢
+      refine ⟨by intro b rest h; simp at h, ?_⟩
+      intro e _
+      by_cases hlt : r.length < m
+      · simp only [hlt, if_true] at hks; exact hkerr hks
+      · simp only [hlt, if_false] at hks
+        obtain ⟨s1, hko, hc, _⟩ := hks
+        exact ⟨.expectedString, s1, by simp only [bytes, hko], by rw [hc.alloc]; omega⟩
+    | str m r =>
+      simp only at hks ⊢
+      by_cases hlt : r.length < m
+      · simp only [hlt, if_true] at hks ⊢
+        exact ⟨by intro b rest h; simp at h, fun e _ => hkerr hks⟩
+      · simp only [hlt, if_false] at hks ⊢
+        obtain ⟨s1, hko, hc, hr1w⟩ := hks
+        have hcons := readHead_consumes _ _ hh
+        simp only at hcons
+        have hhle : (win s).length - r.length ≤ avail s := by omega
+        have hr1 : Ready s1 := step_ready hr hhle hc.step
+        have hav1 : avail s1 = r.length := by rw [hr1w, win_length s1 hr1]
+        have hsz : s1.size ≤ avail s1 := by rw [hc.size, hav1]; omega
+        have hb := bytes_string s1 hr1 hc.kind hc.err hsz
+        have htk : s1.inp.take s1.size = r.take m := by rw [hc.size, hr1w, win_take s1 m (by omega)]
+        rw [htk, ← bytes_of_kind s s1 .string m hko hc.kind hc.size hc.err] at hb
+        have h2 : Step s1 m (after s1.size { s1 with alloc := s1.alloc + s1.size }) := by
+          rw [hc.size]; exact ⟨rfl, rfl, rfl, rfl⟩
+        have hstep := step_trans hc.step h2
+        have hd : (r.drop m).length = r.length - m := List.length_drop
+        have hlen2 : (win s).length - (r.drop m).length = (win s).length - r.length + m := by rw [hd]; omega
+        have hwin2 : r.drop m = win (after s1.size { s1 with alloc := s1.alloc + s1.size }) := by
+          rw [step_win h2, hr1w]
+        have hal : (after s1.size { s1 with alloc := s1.alloc + s1.size }).alloc = s.alloc + m := by
+          simp only [after, hc.alloc, hc.size]
+        have hokcase : ∀ bsv : Bytes, (match r.take m with
+              | [x] => if x < 0x80 then (Except.error SErr.canonSize : Except SErr Bytes) else .ok [x]
+              | b => .ok b) = .ok bsv →
+            ∃ s', bytes s = (.ok bsv, s') ∧ Step s ((win s).length - (r.drop m).length) s' ∧ s'.kind = none ∧
+              r.drop m = win s' ∧ s'.alloc ≤ s.alloc + ((win s).length - (r.drop m).length) := by
+          intro bsv hm
+          refine ⟨after s1.size { s1 with alloc := s1.alloc + s1.size }, ?_, ?_, rfl, hwin2, ?_⟩
+          · rw [hb]; simp only [Prod.mk.injEq, and_true]; exact hm
+          · rw [hlen2]; exact hstep
+          · rw [hlen2, hal]; omega
+        split
+        · rename_i x hx
+          by_cases hx80 : x < 0x80
+          · simp only [hx80, if_true]
+            refine ⟨by intro b rest h; simp at h, fun e _ => ⟨.canonSize, after s1.size { s1 with alloc := s1.alloc + s1.size }, ?_, ?_⟩⟩
+            · rw [hb, hx]; simp [hx80]
+            · rw [hal]; omega
+          · simp only [hx80, if_false]
+            refine ⟨?_, by intro e h; simp at h⟩
+            intro b rest h
+            simp only [Except.ok.injEq, Prod.mk.injEq] at h
+            obtain ⟨hb', hrest⟩ := h
+            subst hb'; subst hrest
+            exact hokcase [x] (by rw [hx]; simp [hx80])
+        · rename_i hns
+          refine ⟨?_, by intro e h; simp at h⟩
+          intro b rest h
+          simp only [Except.ok.injEq, Prod.mk.injEq] at h
+          obtain ⟨hb', hrest⟩ := h
+          subst hb'; subst hrest
+          refine hokcase (r.take m) ?_
+          split
+          · rename_i x hx; exact absurd hx (hns x)
+          · rfl
+
+end Aqv.RlpStream
